@@ -114,3 +114,38 @@ func init() {
 		}
 	}
 }
+
+func init() {
+	exploreExtra["fieldcov"] = func(p *Prog) {
+		pk := p.Pkg("private/bufpkg/bufconfig")
+		reads, writes := structFieldUses(p, pk, func(tn string) bool { return len(tn) > 8 && tn[:8] == "external" })
+		types := map[string]bool{}
+		for k := range reads {
+			types[k[:indexByte(k, '.')]] = true
+		}
+		for k := range writes {
+			types[k[:indexByte(k, '.')]] = true
+		}
+		for _, f := range allStructFields(pk, func(tn string) bool { return len(tn) > 8 && tn[:8] == "external" }) {
+			fmt.Printf("%-70s reads=%d writes=%d\n", f, reads[f], writes[f])
+		}
+	}
+}
+
+func indexByte(s string, b byte) int {
+	for i := 0; i < len(s); i++ {
+		if s[i] == b {
+			return i
+		}
+	}
+	return len(s)
+}
+
+func init() {
+	exploreExtra["accessorcov"] = func(p *Prog) {
+		pk := p.Pkg("private/bufpkg/bufconfig")
+		for _, u := range uncalledAccessors(p, pk, []string{"writeBufYAMLFile", "writeBufLockFile", "writeBufGenYAMLFile", "writeBufWorkYAMLFile"}) {
+			fmt.Println(u)
+		}
+	}
+}
